@@ -15,6 +15,7 @@ CONSTANTS
   ReqCTs <- ReqCTsAll
   Accepts <- AcceptsQuick
   Docs <- DocsQuick
+  Slip = "none"
 INIT Init
 NEXT Next
 CHECK_DEADLOCK FALSE
